@@ -10,9 +10,9 @@ Proof. induction a as [|o a IH]; intros b s; simpl; [reflexivity | apply IH]. Qe
 (* ---- the sequence collector ---- *)
 Lemma collect_step : forall s o, a_collect s = false -> a_collect (fst (astep s o)) = false.
 Proof.
-  intros [st p ld lc cd pf co] o H; simpl in H; subst co.
+  intros [st p ld lc cd pf co bf] o H; simpl in H; subst co.
   destruct o; simpl; unfold is_init, stream_call, compress2, frame_start, reset_session, init_local_dict, set_collect,
-    set_params, clear_dicts, is_init; simpl;
+    set_params, set_buf, clear_dicts, is_init; simpl;
   repeat match goal with
          | |- context [match ?x with _ => _ end] => destruct x; simpl
          | |- context [if ?x then _ else _] => destruct x; simpl
@@ -31,17 +31,53 @@ Theorem collector_survived_before_fix :
 Proof. reflexivity. Qed.
 
 (* ---- a reset of session and parameters erases the API-level history ---- *)
+(* round 3: the resets do not touch cctx->bufferedPolicy (ghost field a_buf); it is dead while the stage is init - every
+   step reads it nowhere (astep never branches on a_buf) - so the statement is: equal up to a_buf, and stays so *)
+Definition eqb_upto_buf (s t : api) : Prop := set_buf s false = set_buf t false.
+
 Lemma full_reset_state : forall s, a_collect s = false ->
-  fst (astep (fst (astep s AResetSession)) AResetParams) = a_fresh.
-Proof. intros [st p ld lc cd pf co] H; simpl in H; subst co; reflexivity. Qed.
+  eqb_upto_buf (fst (astep (fst (astep s AResetSession)) AResetParams)) a_fresh.
+Proof. intros [st p ld lc cd pf co bf] H; simpl in H; subst co; reflexivity. Qed.
+
+Lemma upto_buf_step : forall s t o, eqb_upto_buf s t ->
+  eqb_upto_buf (fst (astep s o)) (fst (astep t o)) /\ snd (astep s o) = snd (astep t o).
+Proof.
+  intros [st p ld lc cd pf co bf] [st' p' ld' lc' cd' pf' co' bf'] o H.
+  unfold eqb_upto_buf, set_buf in H; simpl in H. injection H as -> -> -> -> -> -> ->.
+  destruct o; simpl; unfold eqb_upto_buf, is_init, stream_call, compress2, frame_start, reset_session, init_local_dict, set_collect,
+    set_params, set_buf, clear_dicts, is_init; simpl;
+  repeat match goal with
+         | |- context [match ?x with _ => _ end] => destruct x; simpl
+         | |- context [if ?x then _ else _] => destruct x; simpl
+         end; split; reflexivity.
+Qed.
+
+Lemma upto_buf_run : forall k s t, eqb_upto_buf s t -> eqb_upto_buf (arun s k) (arun t k).
+Proof.
+  induction k as [|o k IH]; intros s t H; simpl; [exact H |].
+  apply IH. apply (proj1 (upto_buf_step s t o H)).
+Qed.
 
 Theorem full_reset_erases_api_history : forall hist k,
-  arun a_fresh (hist ++ [AResetSession; AResetParams] ++ k) = arun a_fresh k.
+  eqb_upto_buf (arun a_fresh (hist ++ [AResetSession; AResetParams] ++ k)) (arun a_fresh k).
 Proof.
   intros hist k. rewrite arun_app.
   change (arun (arun a_fresh hist) ([AResetSession; AResetParams] ++ k))
     with (arun (fst (astep (fst (astep (arun a_fresh hist) AResetSession)) AResetParams)) k).
-  rewrite full_reset_state; [reflexivity | apply collector_off_after_every_history].
+  apply upto_buf_run, full_reset_state, collector_off_after_every_history.
+Qed.
+(* the fields the lock-step compared in round 2 (everything but a_buf) are therefore equal *)
+Corollary full_reset_erases_api_fields : forall hist k,
+  api_fields (arun a_fresh (hist ++ [AResetSession; AResetParams] ++ k)) = api_fields (arun a_fresh k) /\
+  a_params (arun a_fresh (hist ++ [AResetSession; AResetParams] ++ k)) = a_params (arun a_fresh k) /\
+  frame_view (arun a_fresh (hist ++ [AResetSession; AResetParams] ++ k)) = frame_view (arun a_fresh k).
+Proof.
+  intros hist k. pose proof (full_reset_erases_api_history hist k) as H.
+  destruct (arun a_fresh (hist ++ [AResetSession; AResetParams] ++ k)) as [st p ld lc cd pf co bf].
+  destruct (arun a_fresh k) as [st' p' ld' lc' cd' pf' co' bf'].
+  unfold eqb_upto_buf, set_buf in H; simpl in H. injection H as -> -> -> -> -> -> ->.
+  split; [reflexivity | split; [reflexivity |]].
+  unfold frame_view, init_local_dict, view_of; simpl. destruct ld' as [d0|]; [destruct lc' as [c0|] |]; reflexivity.
 Qed.
 
 (* ---- the local CDict ---- *)
@@ -51,9 +87,9 @@ Definition Linked (s : api) : Prop :=
 
 Lemma linked_step : forall s o, Linked s -> Linked (fst (astep s o)).
 Proof.
-  intros [st p ld lc cd pf co] o L. unfold Linked in *; simpl in *.
+  intros [st p ld lc cd pf co bf] o L. unfold Linked in *; simpl in *.
   destruct o; simpl; unfold is_init, stream_call, compress2, frame_start, reset_session, init_local_dict, set_collect,
-    set_params, clear_dicts, is_init; simpl;
+    set_params, set_buf, clear_dicts, is_init; simpl;
   repeat match goal with
          | |- context [match ?x with _ => _ end] => destruct x; simpl
          | |- context [if ?x then _ else _] => destruct x; simpl
@@ -78,9 +114,9 @@ Definition harmless (s : api) (o : aop) : Prop :=
 
 Lemma coherent_step : forall s o, Linked s -> Coherent s -> harmless s o -> Coherent (fst (astep s o)).
 Proof.
-  intros [st p ld lc cd pf co] o L C Hh. unfold Coherent, Linked, harmless in *; simpl in *.
+  intros [st p ld lc cd pf co bf] o L C Hh. unfold Coherent, Linked, harmless in *; simpl in *.
   destruct o; simpl; unfold is_init, stream_call, compress2, frame_start, reset_session, init_local_dict, set_collect,
-    set_params, clear_dicts, is_init; simpl.
+    set_params, set_buf, clear_dicts, is_init; simpl.
   - (* ASet *) destruct st; simpl.
     + intros d q Hq. destruct Hh as [-> | ->]; [apply (C d q Hq) | discriminate].
     + destruct auth; simpl; intros d q Hq; [destruct Hh as [-> | ->]; [apply (C d q Hq) | discriminate] | apply (C d q Hq)].
@@ -103,6 +139,7 @@ Proof.
   - exact C.
   - destruct ld as [d0|]; simpl; [| exact C]. destruct lc as [c0|]; simpl; [exact C |].
     intros d q Hq. injection Hq as _ <-. reflexivity.
+  - exact C.
 Qed.
 
 Fixpoint harmless_run (s : api) (ops : list aop) : Prop :=
@@ -129,7 +166,7 @@ Proof.
   intros ops d H Hd Hp.
   pose proof (local_cdict_follows_parameters ops H) as C.
   pose proof (local_cdict_is_the_cdict ops) as L.
-  remember (arun a_fresh ops) as s. destruct s as [st p ld lc cd pf co]; simpl in *. subst ld pf.
+  remember (arun a_fresh ops) as s. destruct s as [st p ld lc cd pf co bf]; simpl in *. subst ld pf.
   unfold Linked, Coherent in L, C. simpl in L, C.
   unfold frame_view, init_local_dict, view_of; simpl.
   destruct lc as [[d1 q1]|]; simpl.
@@ -146,3 +183,46 @@ Proof. split; reflexivity. Qed.
 (* the prefix is single usage: no frame start leaves one behind *)
 Theorem prefix_is_single_use : forall s, a_prefix (frame_start s) = None.
 Proof. intros s; reflexivity. Qed.
+
+(* ---------------- round 3: the streaming session and its buffers ---------------- *)
+(* since 38ec6ea every single-call / buffer-less entry point closes an open streaming session *)
+Theorem simple_call_closes_stream : forall ops, a_stage (arun a_fresh (ops ++ [ASimple])) = SInit.
+Proof. intros ops. rewrite arun_app. simpl. reflexivity. Qed.
+(* ... so the streaming call that follows starts a NEW frame, with the dictionary view of that moment *)
+Theorem stream_after_simple_starts_a_frame : forall ops,
+  let s := arun a_fresh (ops ++ [ASimple]) in
+  fst (astep s AStreamCall) = frame_start s.
+Proof. intros ops s. pose proof (simple_call_closes_stream ops) as H. fold s in H. simpl. unfold stream_call, is_init. rewrite H. reflexivity. Qed.
+
+(* the invariant the streaming code relies on: an open streaming session has its buffers
+   (cctx->bufferedPolicy == ZSTDb_buffered: inBuff / outBuff were reserved by the reset that started the frame) *)
+Definition BufInv (s : api) : Prop := a_stage s = SLoad -> a_buf s = true.
+
+Lemma bufinv_step : forall s o, BufInv s -> BufInv (fst (astep s o)).
+Proof.
+  intros [st p ld lc cd pf co bf] o H. unfold BufInv in *; simpl in *.
+  destruct o; simpl; unfold is_init, stream_call, compress2, frame_start, reset_session, init_local_dict, set_collect,
+    set_params, set_buf, clear_dicts, is_init; simpl;
+  repeat match goal with
+         | |- context [match ?x with _ => _ end] => destruct x; simpl
+         | |- context [if ?x then _ else _] => destruct x; simpl
+         end; intros E; try discriminate E; try reflexivity; try (apply H; exact E); try (apply H; reflexivity).
+Qed.
+
+(* for EVERY history of the 14 calls (since 38ec6ea + d3967a5) *)
+Theorem open_stream_has_buffers : forall ops, BufInv (arun a_fresh ops).
+Proof.
+  assert (G : forall ops s, BufInv s -> BufInv (arun s ops)).
+  { induction ops as [|o t IH]; intros s H; simpl; [exact H | apply IH, bufinv_step, H]. }
+  intros ops. apply G. intros E; discriminate E.
+Qed.
+
+(* before d3967a5 ZSTD_copyCCtx into a context whose streaming frame is open broke it (finding
+   copyCCtx-into-open-stream-keeps-stage: the next ZSTD_compressStream2 continued a session whose buffers were gone) *)
+Theorem copy_into_open_stream_broke_it_before_d3967a5 :
+  let s := arun_pred39 a_fresh [AStreamCall; ACopyInto] in a_stage s = SLoad /\ a_buf s = false.
+Proof. split; reflexivity. Qed.
+(* the same witness for ZSTD_compressCCtx & co. before 38ec6ea *)
+Theorem simple_call_broke_it_before_38ec6ea :
+  let s := fst (astep_pre38 (arun a_fresh [AStreamCall]) ASimple) in a_stage s = SLoad /\ a_buf s = false.
+Proof. split; reflexivity. Qed.
